@@ -125,11 +125,6 @@ class CaseGen:
                 s, c, st = g
                 if api == 'n':
                     st = [1] * nd
-                    if VISREC[var]:
-                        # a varn sub-request spanning several records corrupts memory in the library (F20: per-record
-                        # nelems not divided by the record count, in blocking varn as well); the random stream keeps
-                        # one record per sub-request so that the harness survives; one fixed case ties the model
-                        c = [1] + list(c[1:])
                 el = [(var,) + e for e in self.elems(var, s, c, st)] if nd > 0 else [(var,)]
                 if kind != 'get':
                     if any(e in self.written[var] for e in el) or any(e in allel for e in el):
@@ -359,9 +354,8 @@ FIXED_CASES = [
     (['P 0 0 put 0 a 0 1 0 0 -1 0 0 0 1 0 0 2 3', 'P 0 1 put 1 a 0 1 0 0 -1 0 0 0 1 2 3', 'P 0 2 get 0 a 0 1 0 0 -1 0 0 0 1 1 1 2 3',
       'W 0 c 2 1 1 2 h0 U998 1 0', 'END 0'],
      [_P, _P, _P, _w(2, 1, ['h0', 'U998'], [0], 2, 3, misuse='unknown'), _END], {}),
-    # F20 (tie only): iput_varn with one sub-request spanning two records.  The per-record requests get twice the
-    # element count (visible in the queue dump, reproduced by Model.ReqQueue.splitVarn); the blocking put_varn runs
-    # through the same code, so the C02 oracle (nonblocking == blocking) cannot see it — it is a C01/C13 finding.
+    # regression case for F20 (fixed in /repo by e413b55d): iput_varn with one sub-request spanning two records;
+    # the queue dump shows the per-record element counts / xbuf offsets (Model.ReqQueue.splitVarn, theorem record_split)
     (['P 0 0 put 2 n 0 2 0 0 2 0 0 0 1 0 0 2 8', 'W 0 c -1 0 0 0  1 0', 'END 0'],
      [_P, _w(-1, 0, [], [0], 0, 1), _END], {}),
     # F21: subset wait completing a record put that is not at the front of the put queue: numrecs not raised
@@ -559,7 +553,8 @@ def gen_unit(rng, n):
 
 
 LEAN_FILES = ['PnVerif/Model/Merge.lean', 'PnVerif/Model/ReqQueue.lean', 'PnVerif/Lemmas/MergeLemmas.lean',
-              'PnVerif/Lemmas/ReqQueueLemmas.lean', 'PnVerif/Props/C02.lean', 'Driver/C02.lean']
+              'PnVerif/Lemmas/ReqQueueLemmas.lean', 'PnVerif/Lemmas/ReqQueueWait.lean', 'PnVerif/Lemmas/ReqQueueInv.lean',
+              'PnVerif/Props/C02.lean', 'Driver/C02.lean']
 
 
 def run_check(tier, seed):
